@@ -215,8 +215,16 @@ def tailEms : Nat → Bytes → Bool → List Em
           tailEms fuel (q.drop (Gen.RELAY_TAILBUF - 1)) true
       else ⟨strm, c⟩ :: tailEms fuel (q.drop (Gen.RELAY_TAILBUF - 1)) labeled
 
+/-- ALL the proofs need of the size of `_flush_output`'s stack buffer (regenerated from dsh.c): it holds the
+    8 KiB the property speaks of.  A larger buffer keeps every theorem; a smaller one breaks this `decide`
+    (and the pinned tails of 8190/8191 bytes come out in several stdio calls on the real code). -/
+theorem tailbuf_ge : Spec.wholeTailBelow ≤ Gen.RELAY_TAILBUF := by decide
+
+theorem tailbuf_pos : 0 < Gen.RELAY_TAILBUF - 1 := by
+  have := tailbuf_ge; simp only [Spec.wholeTailBelow] at this; omega
+
 theorem tailbuf_cast : ((Gen.RELAY_TAILBUF : Nat) : Int) - 1 = ((Gen.RELAY_TAILBUF - 1 : Nat) : Int) := by
-  simp [Gen.RELAY_TAILBUF]
+  have := tailbuf_pos; omega
 
 theorem tailLoop_fifo : ∀ (fuel : Nat) (b : PBuf) (labeled : Bool) (acc : List Em), b.f.q.length < fuel →
     tailLoop fifoOps cfg host strm fuel b labeled acc =
@@ -225,7 +233,7 @@ theorem tailLoop_fifo : ∀ (fuel : Nat) (b : PBuf) (labeled : Bool) (acc : List
   | fuel + 1, b, labeled, acc, h => by
     unfold tailLoop tailEms
     rw [tailbuf_cast, read_fifo]
-    have hT : 0 < Gen.RELAY_TAILBUF - 1 := by simp [Gen.RELAY_TAILBUF]
+    have hT : 0 < Gen.RELAY_TAILBUF - 1 := tailbuf_pos
     by_cases hq : b.f.q = []
     · simp [hq]
     · have hlen : 0 < b.f.q.length := List.length_pos_iff.mpr hq
